@@ -939,6 +939,10 @@ func registerSpecBuiltins(x *Exec) {
 		as, ok := sc.st.calls[lit.Text]
 		i := 0
 		fmt.Sscanf(il.Text, "%d", &i)
+		if !ok {
+			x.freshLogEntry(sc.st, lit.Text)
+			as, ok = sc.st.calls[lit.Text]
+		}
 		if !ok || i >= len(as) {
 			unsup("spec: lastarg: no recorded call to %s on this path", lit.Text)
 		}
@@ -992,6 +996,11 @@ func registerSpecBuiltins(x *Exec) {
 		as, ok := sc.st.calls[lit.Text+"#ret"]
 		i := 0
 		fmt.Sscanf(il.Text, "%d", &i)
+		if !ok {
+			// no call on this path: the value is unconstrained (the clause must hold whatever it is)
+			x.freshLogEntry(sc.st, lit.Text)
+			as, ok = sc.st.calls[lit.Text+"#ret"]
+		}
 		if !ok || i >= len(as) {
 			unsup("spec: lastret: no recorded call to %s on this path", lit.Text)
 		}
